@@ -26,6 +26,8 @@ pub struct CompileCheck {
     /// unrelated programs compiled first on the same thread ("what was compiled before")
     pub history: Vec<String>,
     pub peer: Peer,
+    /// `program` is a construction with size parameter 2k; this is the same construction at k
+    pub half: Option<String>,
 }
 
 impl CompileCheck {
@@ -39,6 +41,7 @@ impl CompileCheck {
             "hash_seeds": self.hash_seeds,
             "history": self.history,
             "peer": self.peer.to_json(),
+            "half": self.half,
         })
     }
 
@@ -51,6 +54,7 @@ impl CompileCheck {
             hash_seeds: v.get("hash_seeds")?.as_array()?.iter().filter_map(|x| x.as_u64()).collect(),
             history: v.get("history")?.as_array()?.iter().filter_map(|x| x.as_str().map(|s| s.to_string())).collect(),
             peer: Peer::from_json(v.get("peer")?)?,
+            half: v.get("half").and_then(|x| x.as_str()).map(|x| x.to_string()),
         })
     }
 
@@ -72,6 +76,10 @@ impl CompileCheck {
             let mut n = self.clone();
             n.hash_seeds.pop();
             out.push(n);
+        }
+        if self.half.is_some() {
+            // a growth pair is only meaningful as generated
+            return out;
         }
         // unwrap loops
         let prog: Vec<char> = self.program.chars().collect();
@@ -106,6 +114,9 @@ impl CompileCheck {
     }
 
     pub fn remove_primary(&self, start: usize, len: usize) -> Option<CompileCheck> {
+        if self.half.is_some() {
+            return None;
+        }
         let chars: Vec<char> = self.program.chars().collect();
         if start >= chars.len() {
             return None;
@@ -218,6 +229,37 @@ fn eval_typed<C: CellType>(c: &CompileCheck, v: &mut Verdict) {
             format!("building the four executors for a {}-byte source made {} allocation requests for {} bytes (bounds: 1e7 requests, 2^28 bytes)", c.program.len(), reqs, bytes),
         );
         return;
+    }
+    // growth: the same construction at half the size parameter must not be cheaper by more
+    // than a polynomial factor (source length is linear in the parameter; a factor of 32 per
+    // doubling allows degree 5, an exponential cost doubles its *exponent*)
+    if let Some(h) = &c.half {
+        galloc::count_begin();
+        let built = catch_unwind(AssertUnwindSafe(|| {
+            let _ = InplaceInterpreter::<C>::create(h, c.level);
+            let _ = IrInterpreter::<C>::create(h, c.level);
+            let _ = BcInterpreter::<C>::create(h, c.level);
+            #[cfg(not(miri))]
+            let _ = BaseJitCompiler::<C>::create(h, c.level);
+        }));
+        let (_, half_bytes) = galloc::count_end();
+        if built.is_ok() {
+            v.add("growth_pairs_compared", 1);
+            let ratio_x100 = bytes.saturating_mul(100) / half_bytes.max(1);
+            let bucket = [200u64, 300, 400, 800, 1600, 3200].iter().find(|&&b| ratio_x100 <= b).map(|b| format!("growth_cost_ratio_le_{}", b / 100)).unwrap_or_else(|| "growth_cost_ratio_gt_32".into());
+            v.add(&bucket, 1);
+            if bytes > half_bytes.saturating_mul(32).saturating_add(1 << 20) {
+                v.fail(
+                    "compile-growth",
+                    0,
+                    format!(
+                        "doubling the size parameter of a construction ({} -> {} source bytes) multiplies the allocator traffic of building the four executors by {}.{:02} ({} -> {} bytes): more than polynomial",
+                        h.len(), c.program.len(), ratio_x100 / 100, ratio_x100 % 100, half_bytes, bytes
+                    ),
+                );
+                return;
+            }
+        }
     }
     // 2./3. artefacts under different hash seeds and compile histories
     let mut arts: Vec<(String, Artefacts)> = Vec::new();
@@ -370,6 +412,12 @@ pub fn generate(rng: &mut Rng, prop: &str, corpus: &[String]) -> CompileCheck {
         6 => gen::program(rng, gen::Family::Corpus, width, corpus, false),
         _ => gen::program(rng, gen::Family::Structured, width, corpus, false),
     };
+    let (program, half) = if rng.chance(1, 6) {
+        let (h, f, _) = gen::growth_pair(rng);
+        (f, Some(h))
+    } else {
+        (program, None)
+    };
     let nh = rng.urange(0, 3);
     let history = (0..nh).map(|_| gen::program(rng, gen::Family::Raw, width, corpus, false)).collect();
     CompileCheck {
@@ -380,5 +428,6 @@ pub fn generate(rng: &mut Rng, prop: &str, corpus: &[String]) -> CompileCheck {
         hash_seeds: (0..4).map(|_| rng.next()).collect(),
         history,
         peer: Peer::generate(rng),
+        half,
     }
 }
